@@ -256,3 +256,61 @@ func IP(rc *RC, floor int) {
 		}
 	}
 }
+
+// IP2: per-operand iterators of the view stack. denseViewStack builds one iterator per
+// further operand; the j-th iterator must be the iterator of the j-th operand (the range
+// element), not of the first operand or of any fixed tensor - "same shape" is not "same
+// strides".
+func IP2(rc *RC) {
+	rc.S.Declare("IP2", "iterator pairing in the view stack: inside the loop over the further operands the iterator appended to the iterator list is built from that loop's own element", 1)
+	fi := anchor(rc, "IP2", "tensor.(StdEng).denseViewStack")
+	if fi == nil {
+		return
+	}
+	pos := rc.P.Pos(fi.Decl.Pos())
+	_, tree := sCanon(rc, fi)
+	n := 0
+	var bad []string
+	for _, lp := range ir.FindLoops(tree) {
+		if lp.Kind != "range" {
+			continue
+		}
+		h := strings.TrimPrefix(lp.Head, "range ")
+		k := strings.LastIndex(h, " as ")
+		if k < 0 {
+			continue
+		}
+		over, idx := h[:k], h[k+4:]
+		elem := over + "[" + idx + "]"
+		env := map[string]string{}
+		for _, st := range lp.Kids {
+			// indexed form: its[j] = IteratorFromDense(…)
+			if (st.Kind == "let" || st.Kind == "store") && strings.HasSuffix(st.Target, "["+idx+"]") && strings.Contains(st.Value, "Iterator") {
+				n++
+				if v := substEnv(st.Value, env); !strings.Contains(v, elem) {
+					bad = append(bad, fmt.Sprintf("the iterator stored for %s is %s, which is not built from %s", elem, v, elem))
+				}
+				continue
+			}
+			if (st.Kind == "let" || st.Kind == "store") && ldIdent.FindString(st.Target) == st.Target {
+				v := substEnv(st.Value, env)
+				if m := regexp.MustCompile(`^append\(` + regexp.QuoteMeta(st.Target) + `, (.*)\)$`).FindStringSubmatch(v); m != nil && strings.Contains(m[1], "Iterator") {
+					n++
+					if !strings.Contains(m[1], elem) {
+						bad = append(bad, fmt.Sprintf("the iterator appended for %s is %s, which is not built from %s", elem, m[1], elem))
+					}
+					continue
+				}
+				env[st.Target] = v
+			}
+		}
+	}
+	switch {
+	case n == 0:
+		rc.S.Undec("IP2", fi.Key, pos, "no loop appending per-operand iterators found")
+	case len(bad) > 0:
+		rc.S.Viol("IP2", fi.Key, pos, strings.Join(bad, "; ")).Sig = firstWords(bad)
+	default:
+		rc.S.Ok("IP2", fi.Key, pos, "each further operand is walked by its own iterator")
+	}
+}
